@@ -4,7 +4,7 @@ import torch
 from . import models, wq
 
 EVIDENCE = dict(
-    bounds="input, weight, bias and the upstream gradient symbolic; Linear(3,2) with input ranks 2,3,4 (batch dims <= 2) and Conv2d(1,2,2); six weight qtypes; activations None/qint8 (+qfloat8_e4m3fn thorough); float32 (+float16 thorough); frozen and unfrozen; weight updates in three styles (no_grad copy_, .data.copy_, .data rebinding) followed by a forward",
+    bounds="input, weight, bias and the upstream gradient symbolic; Linear(3,2) with input ranks 2,3,4 (batch dims <= 2) and Conv2d(1,2,2); six weight qtypes; activations None/qint8 (+qfloat8_e4m3fn thorough); float32 (+float16 thorough); frozen and unfrozen; weight updates in three styles (no_grad copy_, .data.copy_, .data rebinding) followed by a forward; every combination of requires_grad flags on weight, bias and input; float16: bit-exact (BIT) rounding clause when terms differ, weight codes and scales cut to free variables",
     outside="higher-order gradients; CUDA kernels; sizes beyond the bounds (the hand-written backward's rank handling is exercised for ranks 2-4)",
     assumptions=[
         "ALG term identity (uninterpreted float ops, canonical multiset form of contractions) = equal under any float semantics; on a mismatch the disequality is asked in exact real arithmetic (RERR ideal) and the model replayed",
